@@ -7,8 +7,9 @@ from .. import lbgen, lbshadow
 from . import c02
 
 ID = "C05"
-MODULES = ["Helios.Props.C05"]
-THEOREMS = ["Helios.LB.rr_exact", "Helios.LB.lc_min", "Helios.LB.normWeight_pos"]
+MODULES = ["Helios.Props.C05", "Helios.Props.C05W"]
+THEOREMS = ["Helios.LB.rr_exact", "Helios.LB.lc_min", "Helios.LB.normWeight_pos",
+            "Helios.WRR.wrr_exact", "Helios.WRR.wrr_period", "Helios.WRR.wrr_window", "Helios.LB.core_refines"]
 SEC = lbgen.SEC
 
 
@@ -70,7 +71,28 @@ def exhaustive_weight_episodes(rng, full):
     return eps
 
 
+def conc_episodes(rng, thorough):
+    eps = []
+    for n, workers, k in ((3, 2, 400), (5, 8, 300), (8, 12, 200), (2, 6, 500), (1, 4, 100)):
+        if thorough:
+            k *= 10
+        ep = ["lb new round_robin 0 1 1 0 0 0 0 0 0 0 0 0"]
+        for i in range(n):
+            ep.append("lb add c%d 1 good" % i)
+        # a few sequential picks first, so that the window starts at an arbitrary position
+        for t in range(rng.randint(0, n)):
+            ep.append("lb begin %d 0 - - 10.0.0.1:1" % (t + 1))
+            ep.append("lb end %d 0 200" % (t + 1))
+        ep.append("lb rrconc %d %d" % (workers, k))
+        ep.append("lb rrconc %d %d" % (max(2, workers // 2), k))
+        eps.append(ep)
+    return eps
+
+
 def oracle(ep, outs, known=None):
+    conc = [(l, o) for l, o in zip(C.op_lines(ep), outs) if l.startswith("lb rrconc")]
+    if conc:
+        return ["concurrent round-robin pickers: %s -> %s" % (l, o) for l, o in conc if o != "exact"]
     ol = C.op_lines(ep)
     sh = lbshadow.Shadow(ol[0])
     fails = []
@@ -137,7 +159,7 @@ def oracle(ep, outs, known=None):
 def check(ctx):
     ctx.assumptions += [
         "virtual clock via overlay; scripted in-process backends",
-        "each round-robin pick is one atomic increment, so a sequence of picks is an arbitrary interleaving of concurrent pickers (the concurrent counting claim is the sequential theorem)",
+        "each round-robin pick is one atomic increment, so a sequence of picks is an arbitrary interleaving of concurrent pickers (the concurrent counting claim is the sequential theorem); 2..12 real concurrent pickers released through a spin barrier search for a schedule that breaks the count (rrconc)",
         "weighted_round_robin: exactness per window and the drift bound are theorems about the all-eligible fresh state; the sharp constant of the history bound is evaluated by the oracle only",
     ]
     ok = C.prove(ctx, MODULES, THEOREMS)
@@ -145,7 +167,7 @@ def check(ctx):
     d = C.Differential(ctx, binary)
     nep = 800 if ctx.thorough() else 150
     episodes = C.load_corpus(ID) + exhaustive_weight_episodes(ctx.rng, ctx.thorough()) + \
-        [gen_episode(ctx.rng, long=ctx.thorough()) for _ in range(nep)]
+        [gen_episode(ctx.rng, long=ctx.thorough()) for _ in range(nep)] + conc_episodes(ctx.rng, ctx.thorough())
     bad = d.check(episodes, oracle=oracle, label="dist")
     nontriv = set()
     strat_count = {}
